@@ -49,10 +49,12 @@ def _get_etas(model, list_of_etas, include_symbols=False, fixed_allowed=False, i
 
 
 def _get_eta_symbs(eta_str, rvs, sset):
-    try:
-        exp_symbs = sset.find_assignment(eta_str).expression.free_symbols
-    except AttributeError:
+    if sset.find_assignment(eta_str) is None:
         raise KeyError(f'Symbol "{eta_str}" does not exist')
+    # NOTE: The parameter may be re-assigned (e.g. CL = CL*CLAPGR after a covariate effect was added):
+    # look through all its assignments, not only the last one
+    part = sset.before_odes if sset.before_odes.find_assignment(eta_str) is not None else sset.after_odes
+    exp_symbs = part.full_expression(eta_str).free_symbols
     return [str(e) for e in exp_symbs.intersection(rvs.etas.free_symbols)]
 
 
